@@ -1124,6 +1124,13 @@ def run_test(ctx: FunctionContext) -> TestResult:
                 if args.debug:
                     print("aborting path exploration, executor has been shutdown")
                 break
+            except Exception as e:
+                # the solver process failed (e.g. undecodable output): the stuck path cannot be
+                # discarded, but the outcomes of the other paths still decide the verdict
+                error(f"encountered exception while checking a stuck path: {e!r}")
+                solver_output = SolverOutput.from_error(
+                    e, path_id=path_id, query_file=str(path_ctx.dump_file)
+                )
             if solver_output.result != unsat:
                 stuck.append((path_id, ex, ex.context.get_stuck_reason()))
                 if args.print_blocked_states:
